@@ -3,6 +3,7 @@ package headers
 import (
 	"errors"
 	"fmt"
+	"math"
 	"strconv"
 	"strings"
 )
@@ -44,7 +45,13 @@ func parseRangeNumber(numStr string) (num int64, endIndex int64, ok bool) {
 			return num, index, true
 		}
 
-		num = num*10 + int64(ch-'0')
+		digit := int64(ch - '0')
+		if num > (math.MaxInt64-digit)/10 {
+			// The number does not fit in an int64
+			return 0, 0, false
+		}
+
+		num = num*10 + digit
 		index++
 	}
 
